@@ -168,6 +168,21 @@ func runC20(w *World, p map[string]int) {
 						w.Stat("probe.removal_accepted_twice")
 					}
 					ws.Removing = true
+					// ... and the wallet restored the moment it is gone (a task
+					// left over from the retried request must not touch it)
+					if t.Bool(50) {
+						for k := 0; k < 400 && !w.walletGone(inst, id); k++ {
+							w.runSteps(1)
+						}
+						if w.walletGone(inst, id) {
+							delete(inst.Wallets, id)
+							if nw, err := inst.ImportMnemonic(ws, uint32(len(ws.Issued)), true); err == nil {
+								nw.Issued = ws.Issued
+								w.Gen.AddWalletParty(nw)
+								w.Stat("probe.restored_right_after_retried_removal")
+							}
+						}
+					}
 				}
 			}
 		case 4:
@@ -256,6 +271,16 @@ func runC20(w *World, p map[string]int) {
 	if err != nil {
 		w.Violate("C20.wallets-error", "Wallets(): %v", err)
 		return
+	}
+	listed := map[string]bool{}
+	for _, l := range ls {
+		listed[l.ID] = true
+	}
+	for _, id := range inst.SortedWalletIDs() {
+		// an accepted import finishes with the wallet there, not with nothing
+		if ws := inst.Wallets[id]; !ws.Removing && !listed[id] {
+			w.Violate("C20.wallet-vanished", "wallet %s (imported=%v) was created or restored, never removed since, and is not listed at quiescence", id, ws.Imported)
+		}
 	}
 	for _, l := range ls {
 		if !l.Ready || l.Removing {
